@@ -80,6 +80,7 @@ LEAVES = [
     L("s.svc.note", [["sys", []], ["svc", []], ["note", []]], "string", S, fam=["valid"]),
     L("s.ext", [["sys", []], ["ext", []]], "string", S, fam=["ns"]),
     L("s.xc.inner", [["sys", []], ["xc", []], ["inner", []]], "string", S, fam=["ns"]),
+    L("s.xtags", [["sys", []], ["xtags", []]], "leaf-list:string", ["ll:s:t1", "ll:s:t1|s:t2", "ll:s:t3|s:t1|s:t2"], kind="leaflist", fam=["ns"]),
     L("ty.e", [["types", []], ["e", []]], "empty", ["e:"], fam=["pres", "types"]),
 ] + [
     # the value engine (C12): one leaf per YANG built-in type, boundary and interior datums
